@@ -253,9 +253,24 @@ func corpus(c *ctxT) []Case {
 	}
 	c.rng = saved
 	// one complete deviation sweep per parent shape
-	for shape := 0; shape < numShapes; shape++ {
+	for shape := 0; shape < 7; shape++ {
 		out = append(out, verifyCases(c, shape, -1)...)
 	}
+	// the expansion-number rule: every prime-terminus shape ComputeExpansionNumber distinguishes (shape 7, sub-variants
+	// 1..4) at four node locations - the original slice [0,0] and three slices that start from an expansion genesis -
+	// with every expansion deviation (+1, -1, = the parent's, = the terminus', = the terminus' + 1) and one more
+	for _, loc := range [][]int{nil, {0, 1}, {1, 0}, {2, 2}} {
+		for sub := 1; sub <= 4; sub++ {
+			c.sub7 = sub
+			out = append(out, verifyCasesAt(c, 7, 1, loc, false)...)
+			for i := 0; i < 2; i++ { // and the function alone (cheap): other thresholds / expansion numbers
+				if pg, _ := genPairAt(c, 7, loc, false); pg != nil {
+					out = append(out, Case{ID: c.next(), Kind: "expansion", Env: cloneEnv(&pg.env), H: []HSpec{pg.parent}})
+				}
+			}
+		}
+	}
+	c.sub7 = 0
 	// a second work-share parent and a second wide-number parent (other share distances / other widths)
 	out = append(out, verifyCases(c, 5, 12)...)
 	out = append(out, verifyCases(c, 6, 12)...)
@@ -265,7 +280,7 @@ func corpus(c *ctxT) []Case {
 
 // ---------- random generation ----------
 
-const numShapes = 7 // parent shapes of genPair
+const numShapes = 8 // parent shapes of genPair
 
 func generate(c *ctxT, n int, tier string) {
 	for i := 0; i < n; i++ {
@@ -283,7 +298,7 @@ func generate(c *ctxT, n int, tier string) {
 		case 5:
 			c.run(genBaseFee(c))
 		case 6:
-			shape := c.rng.Pick(6, 4, 2, 2, 1, 5, 3)
+			shape := c.rng.Pick(6, 4, 2, 2, 1, 5, 3, 4)
 			for _, cs := range verifyCases(c, shape, 5) {
 				c.run(cs)
 			}
